@@ -1,6 +1,8 @@
 // simrun: one binary per generated program. Worker mode iterates run indices; replay mode interprets one plan.
 #include "engine.h"
 #include "walker.h"
+#include <OCTET_STRING.h>
+#include <asn_SET_OF.h>
 #include <csignal>
 #include <cstdlib>
 #include <ctime>
@@ -109,7 +111,7 @@ ValueChoice choose_value(uint64_t run_seed, size_t max_budget) {
     if(fillable(c.td)) {
         size_t budget = 8 + (size_t)rv.below(max_budget - 7);
         if(rv.chance(1, 4)) budget = 8 + (size_t)rv.below(40);
-        else if(max_budget >= 160 && !is_recursive(c.td) && rv.chance(1, 24)) budget = 16000 + (size_t)rv.below(54000);   // long strings / lists: 16K fragmentation, multi-octet lengths
+        else if(max_budget >= 160 && !is_recursive(c.td) && rv.chance(1, 12)) budget = 16000 + (size_t)rv.below(54000);   // long strings / lists: 16K fragmentation, multi-octet lengths
         uint64_t vs = rv.next();
         c.origin = "fill:" + std::to_string(vs) + ":" + std::to_string(budget);
     } else {
@@ -119,6 +121,21 @@ ValueChoice choose_value(uint64_t run_seed, size_t max_budget) {
     }
     c.st = value_from_spec(c.td, c.origin);
     if(!c.st) G.add("skip.value_not_made");
+    else {
+        // reach probes: did the workload meet the codecs' size thresholds (16K fragments, 64K counts, scratch pads)?
+        size_t max_el = 0, max_str = 0;
+        walk(c.td, c.st, [&](const Node &n) {
+            Kind k = kind_of(n.td);
+            if(k == K_SET_OF || k == K_SEQUENCE_OF) { size_t cnt = (size_t)_A_CSET_FROM_VOID(n.ptr)->count; if(cnt > max_el) max_el = cnt; }
+            else if(kind_octets(k)) { size_t sz = ((const OCTET_STRING_t *)n.ptr)->size; if(sz > max_str) max_str = sz; }
+            return true; }, 2000);
+        G.max("reach.max_elements", max_el); G.max("reach.max_string_octets", max_str);
+        if(max_el >= 16384) G.add("reach.values_with_16K_elements");
+        if(max_el >= 128) G.add("reach.values_with_128_elements");
+        if(max_str >= 16384) G.add("reach.values_with_16K_octet_string");
+        if(max_str >= 65536) G.add("reach.values_with_64K_octet_string");
+        if(max_str >= 128) G.add("reach.values_with_128_octet_string");
+    }
     return c;
 }
 
